@@ -211,6 +211,20 @@ pub fn run(ctx: &Ctx) {
         v
     }, check_enc);
 
+    let huge: Vec<usize> = ctx.tier.pick(vec![(1usize << 16) - 1, 1 << 16, (1 << 16) + 3, 100_000], vec![(1usize << 16) - 1, 1 << 16, (1 << 16) + 3, 100_000, (1 << 17) + 40, (1 << 18) + 8, (1 << 20) + 5]);
+    let nh = r2::params().n.clone();
+    ctx.listed("huge_messages", "messages of 2^16-1, 2^16, 2^16+3, 100000 bytes (thorough: up to 2^20+5), nonce injected, four configurations in rotation: exact ciphertext, independent decryption, round trip (size thresholds, chunked or parallel paths)", move || {
+        huge.iter().enumerate().map(|(i, len)| EncCase {
+            d: gen::hex32(&(from_be(&expand_bytes(seed ^ 0xd7, 32)) % (&nh - 2u32) + 1u32)),
+            msg_len: *len,
+            msg_seed: seed ^ *len as u64,
+            msg_class: 0,
+            compressed: i & 1 == 1,
+            c1c3c2: i & 2 == 2,
+            k: Some(gen::hex32(&(from_be(&expand_bytes(seed ^ 0x4b4c ^ *len as u64, 32)) % (&nh - 1u32) + 1u32))),
+        }).collect::<Vec<_>>()
+    }, check_enc);
+
     let maxlen = ctx.tier.pick(1usize << 12, 1usize << 16);
     ctx.generated("generated_fixed_k", "proptest cases with injected nonce: exact ciphertext, independent decryption, round trip", ctx.tier.pick(1_000, 30_000), move || enc_case(true, maxlen), check_enc);
     ctx.generated("generated_library_rng", "proptest cases, nonce from the library's RNG: independent decryption, round trip", ctx.tier.pick(1_500, 30_000), move || enc_case(false, maxlen), check_enc);
